@@ -136,6 +136,8 @@ func (a alt) coq() string {
 		return "AltDigestA " + cq.Bytes(a.d)
 	case "db":
 		return "AltDigestB " + cq.Bytes(a.d)
+	case "dropdb":
+		return "AltDropDb " + cq.N(a.k) + " " + cq.Bytes(a.d)
 	}
 	return "AltNone"
 }
@@ -153,7 +155,7 @@ func applyAltPath(a alt, p history.AuditPath) history.AuditPath {
 			}
 			es[a.k].val = v
 		}
-	case "drop":
+	case "drop", "dropdb":
 		if int(a.k) < len(es) {
 			es = append(es[:a.k:a.k], es[a.k+1:]...)
 		}
@@ -295,9 +297,21 @@ func histCmd(out *cq.Out, seed uint64, tier string) {
 						alts = append(alts, alt{kind: "da", d: h.roots[k]}, alt{kind: "db", d: h.roots[k]})
 					}
 					alts = append(alts, alt{kind: "da", d: fork.roots[i]}, alt{kind: "db", d: fork.roots[j]})
+					// two alterations at once: an entry withheld AND the end digest replaced by the digest of a neighbouring
+					// version (a server hiding the newest events behind an older snapshot the auditor trusts)
+					for k := 0; k < np; k++ {
+						if j >= 1 {
+							alts = append(alts, alt{kind: "dropdb", k: uint64(k), d: h.roots[j-1]})
+						}
+						if int(j)+1 < n && k%3 == 0 {
+							alts = append(alts, alt{kind: "dropdb", k: uint64(k), d: h.roots[j+1]})
+						}
+					}
 					for _, a := range alts {
 						s, e, ds, de := i, j, h.roots[i], h.roots[j]
 						switch a.kind {
+						case "dropdb":
+							de = a.d
 						case "first":
 							s = a.k
 						case "second":
@@ -308,7 +322,8 @@ func histCmd(out *cq.Out, seed uint64, tier string) {
 							de = a.d
 						}
 						effective := !(a.kind == "first" && a.k == i) && !(a.kind == "second" && a.k == j) &&
-							!(a.kind == "da" && bytes.Equal(a.d, h.roots[i])) && !(a.kind == "db" && bytes.Equal(a.d, h.roots[j]))
+							!(a.kind == "da" && bytes.Equal(a.d, h.roots[i])) && !(a.kind == "db" && bytes.Equal(a.d, h.roots[j])) &&
+							!(a.kind == "dropdb" && bytes.Equal(a.d, h.roots[j]))
 						v := verdictIncr(applyAltPath(a, ip.AuditPath), s, e, ds, de)
 						out.Count("incr_alterations", 1)
 						out.Count(fmt.Sprintf("incr_alt_%s_verdict%d", a.kind, v), 1)
@@ -330,9 +345,14 @@ func histCmd(out *cq.Out, seed uint64, tier string) {
 					alts = append(alts, alt{kind: "first", k: pickVersion(rng, N)}, alt{kind: "second", k: pickVersion(rng, N)},
 						alt{kind: "first", k: j + 1}, alt{kind: "da", d: events[rng.Intn(n)]}, alt{kind: "da", d: rng.Bytes(32)},
 						alt{kind: "db", d: h.roots[rng.Intn(n)]}, alt{kind: "db", d: fork.roots[j]})
+					for k := 0; k < np && j >= 1; k++ {
+						alts = append(alts, alt{kind: "dropdb", k: uint64(k), d: h.roots[j-1]})
+					}
 					for _, a := range alts {
 						idx, ver, e, root := i, j, events[i], h.roots[j]
 						switch a.kind {
+						case "dropdb":
+							root = a.d
 						case "first":
 							idx = a.k
 						case "second":
@@ -347,13 +367,13 @@ func histCmd(out *cq.Out, seed uint64, tier string) {
 						out.Count(fmt.Sprintf("memb_alt_%s_verdict%d", a.kind, v), 1)
 						// ground truth: accepted with idx<=ver against the authentic root of version j  =>  idx<=j and event idx is e
 						// (the claimed tree version itself is not bound: (1,2) and (1,3) have the same path shape)
-						if v == 0 && idx <= ver && a.kind != "db" {
+						if v == 0 && idx <= ver && a.kind != "db" && a.kind != "dropdb" {
 							if !(idx <= j && idx < N && bytes.Equal(events[idx], e)) {
 								out.Violate("C02:history-sound:"+a.kind, fmt.Sprintf("history membership verification accepted a false claim: n=%d genuine (%d,%d) alteration %s", n, i, j, a.coq()),
 									map[string]interface{}{"n": n, "i": i, "q": j, "alt": a.coq(), "seed": seed, "case": ci})
 							}
 						}
-						if v == 0 && a.kind == "db" && !bytes.Equal(a.d, h.roots[j]) {
+						if v == 0 && (a.kind == "db" || a.kind == "dropdb") && !bytes.Equal(a.d, h.roots[j]) {
 							out.Violate("C02:history-sound:db", fmt.Sprintf("history membership verification accepted against a different root: n=%d (%d,%d)", n, i, j),
 								map[string]interface{}{"n": n, "i": i, "q": j, "alt": a.coq(), "seed": seed, "case": ci})
 						}
